@@ -195,8 +195,27 @@ def task_bounds(prop, seed, size, cfgbins, mod=None, fn='make', kw=None):
             return '; '.join(bad) if bad else None
         ctx.block()
         ctx.add('bounds.report', expect=rep, cls='bounds-report', info='repr')
+        # positive control (after the real report): a kernel deliberately entered above its documented bound through the
+        # hook must be counted, otherwise the monitor is blind in this build
+        ctx.add('bounds.reset', cls='bounds-control', trivial=True)
+        from .. import vecmodel as vm
+        e_, o_ = vm.Avx2.bound(1.2)
+        over = vm.Avx2.pack([[(e_ - 1) if i % 2 == 0 else (o_ - 1) for i in range(10)] for _ in range(4)])
+        ctx.add('vec.avx2.op', 'negate_lazy', vm.tok(over), cls='bounds-control', trivial=True, info='repr')
+
+        def ctl(toks):
+            if toks[0] != 'T':
+                return 'HARNESS bound monitor not compiled into this build'
+            for t in toks[1:]:
+                f = [int(x) for x in t.split(':')]
+                if f[0] == 3:
+                    return None if f[4] >= 1 else 'HARNESS positive control: the bound monitor did not count a deliberate exceedance'
+            return 'HARNESS positive control: site missing'
+        ctx.add('bounds.report', expect=ctl, cls='bounds-control', trivial=True, info='repr')
         res = core.run_and_judge(prop, ctx, [cb], compare=False)
         res['violations'] = [v for v in res['violations'] if 'bounds.report' in v.req or str(v.why).startswith('panic')]
+        res['harness'] += [str(v.why) for v in res['violations'] if str(v.why).startswith('HARNESS')]
+        res['violations'] = [v for v in res['violations'] if not str(v.why).startswith('HARNESS')]
         key = 'bound_monitor_hook_boundary_workloads' if (mod.endswith('c01v') or fn == 'make_boundary') else ('bound_monitor_vector_formula_boundary_starts' if fn == 'make_boundary_vec' else 'bound_monitor_public_api_and_point_formula_workloads')
         res.setdefault('extra', {})[key] = marks
         out.append(res)
